@@ -375,8 +375,14 @@ func (g *Gen) genProgram(v2 bool, npk int, depth int) ([]GenPkg, []string) {
 		var impPaths []string
 		if len(imps) > 0 {
 			src.WriteString("import (\n")
-			for _, q := range imps {
-				fmt.Fprintf(&src, "\t%q\n", pgPath(q))
+			for k, q := range imps {
+				if k == 0 && pgConstRound%2 == 0 {
+					// an import path written as a raw string literal (legal, and kept by gofmt)
+					fmt.Fprintf(&src, "\t`%s`\n", pgPath(q))
+					pg.classes["import-written-as-raw-string"] = true
+				} else {
+					fmt.Fprintf(&src, "\t%q\n", pgPath(q))
+				}
 				impPaths = append(impPaths, pgPath(q))
 			}
 			src.WriteString(")\n\n")
